@@ -34,42 +34,23 @@ fn opt_same(whole: &[u8], got: Option<&str>, s: usize, e: usize) -> bool {
     }
 }
 
-fn data_url<const N: usize>() {
+/// Borrowed form: acceptance = shape oracle; re-scanning accessors = parts() =
+/// oracle split; reassembly; decoded_data of a non-base64 URL.
+fn data_url_borrowed<const N: usize>() {
     let t = Text::<N>::any();
     let b = t.bytes();
     let want = if tables::t_uri_uri_valid_k(b, N) { shape(b) } else { None };
-    let r1 = DataUrl::new(b);
-    let v = vec_of(b);
-    let r2 = DataUrlBuf::new(v);
-    match (&r1, &r2) {
-        (Ok(_), Ok(_)) | (Err(_), Err(_)) => (),
-        _ => panic!("C18: borrowed and owned constructors disagree"),
-    }
-    match (r1, want) {
+    match (DataUrl::new(b), want) {
         (Err(e), None) => {
             assert!(e.0.as_ptr() == b.as_ptr() && e.0.len() == b.len(), "C18: rejected input not handed back");
         }
         (Ok(d), Some((me, b64, ds))) => {
-            let o = match r2 {
-                Ok(o) => o,
-                Err(_) => unreachable!(),
-            };
             assert!(d.as_str().as_ptr() == b.as_ptr() && d.as_str().len() == b.len(), "C18: the data URL is not the caller's text");
-            // borrowed accessors (re-scan the text)
             assert!(opt_same(b, d.media_type(), 5, me), "C18: borrowed media_type()");
             assert!(d.is_base_64_encoded() == b64, "C18: borrowed is_base_64_encoded()");
             assert!(is_subslice(b, d.encoded_data().as_bytes(), ds, b.len()), "C18: borrowed encoded_data()");
             let p = d.parts();
             assert!(opt_same(b, p.media_type, 5, me) && p.base_64 == b64 && is_subslice(b, p.data.as_bytes(), ds, b.len()), "C18: borrowed parts()");
-            // owned accessors (stored offsets)
-            let ob = o.as_str().as_bytes();
-            assert!(bytes_eq(ob, b), "C18: owned data URL text differs");
-            assert!(opt_same(ob, o.media_type(), 5, me), "C18: owned media_type()");
-            assert!(o.is_base_64_encoded() == b64, "C18: owned is_base_64_encoded()");
-            assert!(is_subslice(ob, o.encoded_data().as_bytes(), ds, ob.len()), "C18: owned encoded_data()");
-            let q = o.parts();
-            assert!(opt_same(ob, q.media_type, 5, me) && q.base_64 == b64 && is_subslice(ob, q.data.as_bytes(), ds, ob.len()), "C18: owned parts()");
-            // reassembly: "data:" media [";base64"] "," data is the text (index identity)
             assert!(ds == me + if b64 { 8 } else { 1 } && b[ds - 1] == b',', "C18: parts do not reassemble the text");
             if !b64 {
                 match d.decoded_data() {
@@ -79,7 +60,7 @@ fn data_url<const N: usize>() {
             }
             cover!(b64, "base64 flagged");
             cover!(!b64 && me > 5 && ds < b.len(), "media type and data present");
-            forget(o);
+            cover!(!b64 && ds + 2 < b.len() && b[ds + 1] == b',', "a ',' inside the data");
         }
         (Ok(_), None) => panic!("C18: accepted a text that is not a valid URI of the data: shape"),
         (Err(_), Some(_)) => panic!("C18: rejected a valid data URL"),
@@ -87,18 +68,64 @@ fn data_url<const N: usize>() {
     cover!(want.is_none() && b.len() >= 6 && b[4] == b':', "data: prefix but not a data URL");
 }
 
-// @h prop=C18 tier=quick kind=check timeout=3000 mem=20 bound="any byte string <= 14 bytes (data:;base64, fits)" encodes="DataUrl::{new,media_type,is_base_64_encoded,encoded_data,parts,decoded_data};DataUrlBuf::{new,parts,...};DataUrlDelimiters::parse (Uri::validate -> table twin)"
-#[cfg_attr(kani, kani::proof)]
-#[cfg_attr(kani, kani::unwind(17))]
-#[cfg_attr(kani, kani::stub(iref_core::uri::Uri::validate, crate::tables::t_uri_uri_validate_iter))]
-pub fn c18_data_url_n14() {
-    data_url::<14>()
+/// Owned form: same acceptance, offset-based accessors = oracle split.
+fn data_url_owned<const N: usize>() {
+    let t = Text::<N>::any();
+    let b = t.bytes();
+    let want = if tables::t_uri_uri_valid_k(b, N) { shape(b) } else { None };
+    let v = vec_of(b);
+    match (DataUrlBuf::new(v), want) {
+        (Err(e), None) => {
+            assert!(bytes_eq(&e.0, b), "C18: rejected input not handed back (owned)");
+            forget(e);
+        }
+        (Ok(o), Some((me, b64, ds))) => {
+            let ob = o.as_str().as_bytes();
+            assert!(bytes_eq(ob, b), "C18: owned data URL text differs");
+            assert!(opt_same(ob, o.media_type(), 5, me), "C18: owned media_type()");
+            assert!(o.is_base_64_encoded() == b64, "C18: owned is_base_64_encoded()");
+            assert!(is_subslice(ob, o.encoded_data().as_bytes(), ds, ob.len()), "C18: owned encoded_data()");
+            let q = o.parts();
+            assert!(opt_same(ob, q.media_type, 5, me) && q.base_64 == b64 && is_subslice(ob, q.data.as_bytes(), ds, ob.len()), "C18: owned parts()");
+            // the borrowed view of the owned value agrees
+            let d: &DataUrl = &o;
+            assert!(is_subslice(ob, d.encoded_data().as_bytes(), ds, ob.len()) && d.is_base_64_encoded() == b64, "C18: borrowed view of the owned value disagrees");
+            cover!(!b64 && me > 5 && ds < ob.len(), "media type and data present");
+            forget(o);
+        }
+        (Ok(_), None) => panic!("C18: owned constructor accepted a text that is not a data URL"),
+        (Err(_), Some(_)) => panic!("C18: owned constructor rejected a valid data URL"),
+    }
 }
 
-// @h prop=C18 tier=thorough kind=check timeout=5400 mem=26 bound="any byte string <= 18 bytes (data:a;base64,AA== fits)" encodes="same as c18_data_url_n14"
+// @h prop=C18 tier=quick kind=check timeout=2400 mem=16 bound="any byte string <= 13 bytes (data:;base64, fits)" encodes="DataUrl::{new,media_type,is_base_64_encoded,encoded_data,parts,decoded_data};DataUrlDelimiters::parse (Uri::validate -> table twin)"
+#[cfg_attr(kani, kani::proof)]
+#[cfg_attr(kani, kani::unwind(16))]
+#[cfg_attr(kani, kani::stub(iref_core::uri::Uri::validate, crate::tables::t_uri_uri_validate_iter))]
+pub fn c18_data_url_borrowed_n13() {
+    data_url_borrowed::<13>()
+}
+
+// @h prop=C18 tier=quick kind=check timeout=2400 mem=16 bound="any byte string <= 9 bytes" encodes="DataUrlBuf::{new,media_type,is_base_64_encoded,encoded_data,parts};Deref to DataUrl (UriBuf::new; Uri::validate -> table twin)"
+#[cfg_attr(kani, kani::proof)]
+#[cfg_attr(kani, kani::unwind(12))]
+#[cfg_attr(kani, kani::stub(iref_core::uri::Uri::validate, crate::tables::t_uri_uri_validate_iter))]
+pub fn c18_data_url_owned_n9() {
+    data_url_owned::<9>()
+}
+
+// @h prop=C18 tier=thorough kind=check timeout=5400 mem=30 bound="any byte string <= 18 bytes (data:a;base64,AA== fits)" encodes="same as c18_data_url_borrowed_n13"
 #[cfg_attr(kani, kani::proof)]
 #[cfg_attr(kani, kani::unwind(21))]
 #[cfg_attr(kani, kani::stub(iref_core::uri::Uri::validate, crate::tables::t_uri_uri_validate_iter))]
-pub fn c18_data_url_n18() {
-    data_url::<18>()
+pub fn c18_data_url_borrowed_n18() {
+    data_url_borrowed::<18>()
+}
+
+// @h prop=C18 tier=thorough kind=check timeout=5400 mem=30 bound="any byte string <= 14 bytes" encodes="same as c18_data_url_owned_n9"
+#[cfg_attr(kani, kani::proof)]
+#[cfg_attr(kani, kani::unwind(17))]
+#[cfg_attr(kani, kani::stub(iref_core::uri::Uri::validate, crate::tables::t_uri_uri_validate_iter))]
+pub fn c18_data_url_owned_n14() {
+    data_url_owned::<14>()
 }
